@@ -30,6 +30,7 @@ type crashCtx struct {
 	imgRoot string
 	rng     *vrt.Rand
 	images  int
+	followBatches int // batches to commit in the follow-up after a recovery (C04)
 }
 
 // runCrash executes the workload once (fault-free, journalled), then rebuilds the directory as it would be after
@@ -505,6 +506,29 @@ func (ctx *crashCtx) checkImage(k int, cut map[int]int, power bool, pos2 int) {
 		}
 	}
 	journalOn := r.C.Prop == "C07"
+	if r.C.Prop == "C04" {
+		// batches the crashed process had begun since its last Open
+		n := 0
+		curOp := -1
+		if k > 0 {
+			curOp = ctx.journal[k-1].Op
+		}
+		for i := 0; i <= curOp && i < len(ctx.kinds); i++ {
+			switch ctx.kinds[i] {
+			case "restart":
+				n = 0
+			case "batch":
+				n++
+			}
+		}
+		if n < 1 {
+			n = 1
+		}
+		if n > 4 {
+			n = 4
+		}
+		ctx.followBatches = n
+	}
 	var follow func(db *kv.DB, rec *recovery) *kv.DB
 	if r.C.Prop != "C07" && (power || ctx.images%3 == 0 || r.C.Crash != nil) {
 		// the usability round doubles the cost of an image: always after power loss (appending behind a recovered
@@ -639,6 +663,37 @@ func (ctx *crashCtx) usability(cfg Config) func(db *kv.DB, rec *recovery) *kv.DB
 			rec.oracle = "recovery-unusable"
 			return db
 		}
+		want := State(rec.dump.Vals).clone()
+		want[string(key)] = val
+		also := map[string]bool{string(key): true}
+		if r.C.Prop == "C04" {
+			// later history: as many fresh batches as the crashed process had begun since its last Open, so that a
+			// later batch can never seal the leftovers of the crashed one (whatever identifies a batch)
+			for b := 0; b < ctx.followBatches; b++ {
+				var berr error
+				bk1, bk2 := fmt.Sprintf("~after-recovery-batch-%d-a", b), fmt.Sprintf("~after-recovery-batch-%d-b", b)
+				p, fr := protect(func() {
+					wb := db.NewBatch(kv.BatchOptions{})
+					if berr = wb.Put([]byte(bk1), []byte("A")); berr != nil {
+						_ = wb.Commit()
+						return
+					}
+					if berr = wb.Put([]byte(bk2), []byte("B")); berr != nil {
+						_ = wb.Commit()
+						return
+					}
+					berr = wb.Commit()
+				})
+				if p != "" || berr != nil {
+					rec.failure = fmt.Sprintf("batch after recovery: %s %v (%s)", clip(p, 200), berr, fr)
+					rec.oracle = "recovery-unusable"
+					return db
+				}
+				want[bk1], want[bk2] = []byte("A"), []byte("B")
+				also[bk1], also[bk2] = true, true
+				vclock.Advance(3 * time.Millisecond)
+			}
+		}
 		p, _ = protect(func() { err = db.Close() })
 		if p != "" || err != nil {
 			rec.failure = fmt.Sprintf("Close after recovery: %s %v", clip(p, 200), err)
@@ -652,9 +707,6 @@ func (ctx *crashCtx) usability(cfg Config) func(db *kv.DB, rec *recovery) *kv.DB
 			rec.oracle = "recovery-unusable"
 			return nil
 		}
-		want := State(rec.dump.Vals).clone()
-		want[string(key)] = val
-		also := map[string]bool{string(key): true}
 		for k := range r.Ever {
 			also[k] = true
 		}
@@ -665,7 +717,7 @@ func (ctx *crashCtx) usability(cfg Config) func(db *kv.DB, rec *recovery) *kv.DB
 			return db2
 		}
 		if diff := diffState(d2, want); diff != "" {
-			rec.failure = "after recovery, one Put and a clean restart the mapping changed: " + diff
+			rec.failure = "after recovery, further writes (a Put, fresh batches) and a clean restart the mapping is not the recovered one plus those writes: " + diff
 			rec.oracle = "recovery-unusable"
 			return db2
 		}
